@@ -312,8 +312,115 @@ def _check_window(case, rec):
     rec.label('window-ndims=%d' % nd, *(['window-of-periodic-direction'] if rec.nontrivial else []), *(['still-periodic'] if still_periodic else []))
 
 
+# ---- unions of sub-topologies, common refinements, products ------------------------------------------------------------------------
+
+@st.composite
+def setops_cases(draw, tier):
+    kind = draw(st.sampled_from(['union', 'union', 'hier-and', 'hier-and', 'product']))
+    return dict(kind=kind, mesh=draw(st.sampled_from(['rect', 'rect', 'tri'])), n=[draw(st.integers(1, 3)), draw(st.integers(1, 2))],
+                a=draw(st.sampled_from([.15, .25, .3, .45, .6])), b=draw(st.sampled_from([.35, .5, .55, .75, .8])), axis=draw(st.integers(0, 1)), maxrefine=draw(st.integers(0, 2)),
+                sel=[[draw(st.integers(0, 40)) for _ in range(draw(st.integers(1, 3)))] for _ in range(draw(st.integers(1, 3)))],
+                sel2=[[draw(st.integers(0, 40)) for _ in range(draw(st.integers(1, 3)))] for _ in range(draw(st.integers(0, 3)))])
+
+
+def check_setops(case, rec):
+    try:
+        _check_setops(case, rec)
+    except (Violation, Discard):
+        raise
+    except NotImplementedError:
+        raise Discard('operation-not-implemented-for-this-combination')
+    except Exception as e:
+        if isinstance(e, TypeError) and 'unsupported operand type(s) for |' in str(e):
+            raise Discard('union-of-two-cut-parts-of-one-element-not-supported')      # Python's own way of refusing an operand combination (mosaic | mosaic)
+        import traceback
+        tb = traceback.extract_tb(e.__traceback__)
+        inner = next((f'{os.path.basename(fr.filename)}:{fr.name}' for fr in reversed(tb) if '/nutils/' in fr.filename), 'harness')
+        if inner == 'harness': raise
+        raise Violation('op-raised', f'{case["kind"]} {case}: {type(e).__name__}: {str(e)[:200]} in {inner}', where=f'setops:{case["kind"]}:{type(e).__name__}')
+
+
+def _check_setops(case, rec):
+    from nutils import mesh, function
+    with warnings.catch_warnings():
+        warnings.simplefilter('ignore')
+        if case['mesh'] == 'rect':
+            topo, x = mesh.rectilinear([numpy.linspace(0, 1, k + 1) for k in case['n']])
+        else:
+            topo, x = mesh.unitsquare(max(case['n'][0], 1), 'triangle')
+        J = function.J(x); n = function.normal(x)
+        meas = lambda t: float(t.integrate(J, degree=4)) if len(t) else 0.
+        def closed(t, label):
+            bnd = t.boundary
+            a_, b_ = bnd.integrate([n * J, (x * n).sum(-1) * J], degree=4)
+            v = meas(t)
+            if abs(numpy.asarray(a_)).max() > 1e-10 * (1 + v) or abs(float(b_) - 2 * v) > 1e-9 * (1 + v):
+                raise Violation('boundary-not-closed', f'{label}: boundary integral of n = {numpy.asarray(a_).tolist()}, flux of x = {float(b_)} vs 2*measure {2 * v}', where='setops:closed:' + case['kind'])
+        kind = case['kind']
+        ax = case['axis']
+        if kind == 'union':
+            a, b = case['a'], case['b']
+            mr = case['maxrefine']
+            A = topo.trim(a - x[ax], maxrefine=mr)          # x < a
+            B = topo.trim(x[ax] - b, maxrefine=mr)          # x > b
+            C = topo.trim(max(a, b) + .1 - x[ax], maxrefine=mr)   # x < max(a,b)+.1  (contains A)
+            mA, mB, mC, mT = meas(A), meas(B), meas(C), meas(topo)
+            if not len(A) or not len(B): raise Discard('empty-part')
+            U = A | B
+            mU = meas(U)
+            if a <= b:      # disjoint (up to the shared approximate cut when a == b cannot happen: the value lists differ)
+                if abs(mU - (mA + mB)) > 1e-10:
+                    raise Violation('union-measure', f'|{{x<{a}}} | {{x>{b}}}| = {mU}, parts {mA} + {mB} = {mA + mB} (mesh {case["mesh"]} {case["n"]}, axis {ax}, maxrefine {mr})', where='setops:union-disjoint')
+            else:           # overlapping halves cover the whole domain
+                if abs(mU - mT) > 1e-10:
+                    raise Violation('union-measure', f'|{{x<{a}}} | {{x>{b}}}| = {mU} but the two overlapping parts cover the domain of measure {mT}', where='setops:union-cover')
+            N = A | C
+            if abs(meas(N) - mC) > 1e-10:
+                raise Violation('union-measure', f'A | C with A inside C has measure {meas(N)}, C {mC}, A {mA}', where='setops:union-nested')
+            comp = topo - U
+            if abs(meas(comp) + mU - mT) > 1e-10:
+                raise Violation('union-measure', f'|domain - (A|B)| + |A|B| = {meas(comp) + mU} != {mT}', where='setops:union-complement')
+            rec.label('setops:union:' + ('disjoint' if a <= b else 'cover'))
+        elif kind == 'hier-and':
+            A = topo
+            for sel in case['sel']:
+                if len(A) > 60: break
+                A = A.refined_by(sorted({i % len(A) for i in sel}))
+            B = topo
+            for sel in case['sel2']:
+                if len(B) > 60: break
+                B = B.refined_by(sorted({i % len(B) for i in sel}))
+            C = A & B
+            mT = meas(topo)
+            if abs(meas(C) - mT) > 1e-10 or abs(meas(A) - mT) > 1e-10:
+                raise Violation('measure-changed', f'common refinement A & B has measure {meas(C)}, the domain {mT} (levels {len(case["sel"])} / {len(case["sel2"])}, sel {case["sel"]} {case["sel2"]})', where='setops:and-measure')
+            if len(C) < max(len(A), len(B)):
+                raise Violation('common-refinement', f'A & B has {len(C)} elements, A {len(A)}, B {len(B)}', where='setops:and-count')
+            closed(C, 'A & B')
+            # every element of the common refinement is at least as fine as both: its measure does not exceed that of the elements of A and of B containing its midpoint
+            rec.label('setops:and:levels=%d/%d' % (len(case['sel']), len(case['sel2'])))
+        else:
+            X, xx = mesh.rectilinear([numpy.linspace(0, 1.5, case['n'][0] + 1)], space='X')
+            T, tt = mesh.rectilinear([numpy.linspace(0, 2, case['n'][1] + 1)], space='T')
+            P = X * T
+            g = numpy.stack([xx[0], tt[0]])
+            Jp = function.J(xx) * function.J(tt)
+            mp = float(P.integrate(Jp, degree=2))
+            if abs(mp - 3.) > 1e-12:
+                raise Violation('measure-changed', f'|X x T| = {mp}, |X||T| = 3', where='setops:product-measure')
+            Pr = P.refined
+            if abs(float(Pr.integrate(Jp, degree=2)) - 3.) > 1e-12 or len(Pr) != 4 * len(P):
+                raise Violation('measure-changed', f'refined product: measure {float(Pr.integrate(Jp, degree=2))}, {len(Pr)} elements for {len(P)}', where='setops:product-refined')
+            nb = (X.boundary * T).integrate(function.normal(xx) * function.J(tt), degree=2)
+            if abs(numpy.asarray(nb)).max() > 1e-12:
+                raise Violation('boundary-not-closed', f'boundary(X) x T: integral of n_x = {numpy.asarray(nb).tolist()}', where='setops:product-closed')
+            rec.label('setops:product')
+    rec.nontrivial = True
+
+
 SUBS = [Sub('history', cases, check, {'quick': 150, 'thorough': 3000}, weight=4, timeout=180),
-        Sub('windows', window_cases, check_window, {'quick': 150, 'thorough': 3000}, weight=1, timeout=120)]
+        Sub('windows', window_cases, check_window, {'quick': 150, 'thorough': 3000}, weight=1, timeout=120),
+        Sub('setops', setops_cases, check_setops, {'quick': 100, 'thorough': 2000}, weight=1, timeout=120)]
 
 
 # ---- known findings ---------------------------------------------------------------------------------------
